@@ -272,7 +272,7 @@ def run_shard(ctx):
     def test(case):
         check_case(ctx, case)
 
-    runner.drive(ctx, test, ctx.n(1600, 24000))
+    runner.drive(ctx, test, ctx.n(3200, 32000))
 
 
 def replay(ctx, case):
